@@ -151,6 +151,44 @@ var tampers = []string{"hvf", "srcia", "srchost", "srclen", "srctype", "paylen",
 
 // emitEpic builds the EPIC packet for sc according to pl, runs it and registers the case.
 func emitEpic(stream string, rc *rcfg, sc *rtgen.Scenario, pl plan) {
+	emitEpicOn(nil, stream, rc, sc, pl)
+}
+
+// emitScionOn runs a packet with a SCION-type path through the (reused) processor and
+// registers it as a CScion case.
+func emitScionOn(proc *router.VerifProcessor, stream string, rc *rcfg, sc *rtgen.Scenario) {
+	if !run.Want() {
+		run.Skip()
+		return
+	}
+	raw, err := sc.Desc.Serialize()
+	if err != nil {
+		run.Tally("unserializable")
+		run.Skip()
+		return
+	}
+	o, err := rtgen2.RunOn(proc, rc.rt, raw, sc.Ing)
+	if err != nil || o.In == nil {
+		run.Tally("unrunnable")
+		run.Skip()
+		return
+	}
+	cls := o.Class()
+	run.Tally("seq-scion:" + cls)
+	l4 := sc.Desc.L4
+	term := "(let p := " + rtgen2.RecTerm(o.In, l4) + " in " +
+		vgen.App("RouterEpic.CScion", rc.name, vgen.N(uint64(o.NowNs)), sc.Ing.Gallina(), rtgen.MacTable(rc.cfg, o.In),
+			"p", o.ResultTerm(o.OutTerm(l4))) + ")"
+	desc := map[string]any{"cfg": rc.name, "ingress": sc.Ing.String(), "kind": sc.Kind, "mutation": sc.Mut,
+		"raw": hex.EncodeToString(raw), "impl": cls, "path_type": "scion"}
+	id := run.Add(stream, term, rc.name+"|"+sc.Ing.String()+"|"+hex.EncodeToString(raw), true, desc)
+	if o.Res.Disp == router.VerifPanic {
+		run.Violate(id, "process panicked: "+o.Res.PanicMsg, desc)
+	}
+}
+
+// emitEpicOn is emitEpic on a reused packet processor (nil: a fresh one).
+func emitEpicOn(proc *router.VerifProcessor, stream string, rc *rcfg, sc *rtgen.Scenario, pl plan) {
 	if !run.Want() {
 		run.Skip()
 		return
@@ -255,7 +293,7 @@ func emitEpic(stream string, rc *rcfg, sc *rtgen.Scenario, pl plan) {
 			}
 		}
 		raw = rtgen2.ToEpic(raw1, e)
-		o, err = rtgen2.Run(rc.rt, raw, sc.Ing)
+		o, err = rtgen2.RunOn(proc, rc.rt, raw, sc.Ing)
 		if err != nil || o.In == nil {
 			run.Tally("unrunnable")
 			run.Skip()
@@ -306,6 +344,71 @@ func emitEpic(stream string, rc *rcfg, sc *rtgen.Scenario, pl plan) {
 	for _, dr := range drift {
 		run.Violate(id, "the EPIC MAC is not the AES-CBC-MAC of (flags, timestamp, packet id, SrcIA, source host, "+
 			"payload length): "+dr, desc)
+	}
+}
+
+// sequences: several packets through ONE reused packet processor (what a processing queue of
+// the router sees). The per-packet model knows nothing of the packets before, so every case
+// is also a check that the processor carries no state from one packet to the next.
+func sequences(rng *vgen.Rand, rc *rcfg) {
+	c := rc.cfg
+	n := 0
+	next := func() *vgen.Rand { n++; return rng.Fork(uint64(n)) }
+	table := func(ilt, elt int, change string, cons bool) *rtgen.Scenario {
+		return rtgen.TableCase(next(), c, nowSec, ilt, elt, change, "ext", "ext", cons)
+	}
+	// a packet that makes process() run doXover (legal segment change child -> core)
+	xover := func() *rtgen.Scenario { return table(rtgen.LTChild, rtgen.LTCore, "xover", n%2 == 0) }
+	ohpOut := func() []byte {
+		r := next()
+		d := &rtgen2.OHP{Info: rtgen.Info{ConsDir: true, SegID: uint16(r.U64()), Timestamp: uint32(nowSec - 100)},
+			First: rtgen.Hop{ConsEgress: 201, ExpTime: 63}, SrcIA: c.IA, DstIA: c.Iface(201).Nbr,
+			Src: rtgen.HostIP4(10, 1, 1, 1), Dst: rtgen.HostSVC(addr.SvcCS), L4: rtgen.UDP(1, 2, []byte{1, 2})}
+		d.First.Mac = c.MAC(d.Info, d.First)
+		raw, _ := d.Serialize()
+		return raw
+	}
+	// 1. SCION segment change, then an EPIC packet WITHIN a segment for every link-type pair
+	for ilt := 0; ilt <= 4; ilt++ {
+		for elt := 0; elt <= 4; elt++ {
+			for _, cons := range []bool{true, false} {
+				proc := rc.rt.DP.VerifNewProcessor()
+				emitScionOn(proc, "sequence", rc, xover())
+				emitEpicOn(proc, "sequence", rc, table(ilt, elt, "none", cons), drawPlan(next()))
+			}
+		}
+	}
+	// 2. EPIC segment change, then SCION / EPIC within a segment; 3. no segment change, then a
+	// segment change (EPIC and SCION); one processor for the whole series
+	proc := rc.rt.DP.VerifNewProcessor()
+	for ilt := 1; ilt <= 4; ilt++ {
+		for elt := 1; elt <= 4; elt++ {
+			emitEpicOn(proc, "sequence", rc, xover(), drawPlan(next()))
+			emitScionOn(proc, "sequence", rc, table(ilt, elt, "none", (ilt+elt)%2 == 0))
+			emitEpicOn(proc, "sequence", rc, xover(), drawPlan(next()))
+			emitEpicOn(proc, "sequence", rc, table(ilt, elt, "none", (ilt+elt)%2 == 1), drawPlan(next()))
+			emitEpicOn(proc, "sequence", rc, table(ilt, elt, "xover", true), drawPlan(next()))
+			emitScionOn(proc, "sequence", rc, table(ilt, elt, "xover", false))
+		}
+	}
+	// 4. peering hops, one-hop packets, refused packets and garbage in between
+	proc = rc.rt.DP.VerifNewProcessor()
+	for i := 0; i < 12; i++ {
+		switch i % 4 {
+		case 0: // one-hop packet (forwarded), not registered as a case
+			rtgen2.RunOn(proc, rc.rt, ohpOut(), rtgen.Ingress{Kind: rtgen.IngInt})
+		case 1: // SCION packet refused by the MAC check (slow path)
+			sc := xover()
+			rtgen.Mutate(next(), sc, c, nowSec, "mac-next")
+			emitScionOn(proc, "sequence", rc, sc)
+		case 2: // truncated garbage
+			rtgen2.RunOn(proc, rc.rt, next().Bytes(20+i), rtgen.Ingress{Kind: rtgen.IngExt, ID: 103})
+		case 3: // peering hop
+			emitEpicOn(proc, "sequence", rc, table(rtgen.LTChild, rtgen.LTPeer, "peer-out", false), drawPlan(next()))
+		}
+		emitScionOn(proc, "sequence", rc, table(rtgen.LTChild, rtgen.LTChild, "none", i%2 == 0))
+		emitEpicOn(proc, "sequence", rc, table(rtgen.LTCore, rtgen.LTChild, "none", i%2 == 1), drawPlan(next()))
+		emitScionOn(proc, "sequence", rc, table(rtgen.LTChild, rtgen.LTParent, "none", true))
 	}
 }
 
@@ -423,7 +526,11 @@ func main() {
 		"payload length, packet counter, packet timestamp (still fresh), info-field timestamp, stale (>= 5 s too old) " +
 		"and future (>= 5 s ahead) timestamps, the other HVF, swapped HVFs; (4) libepic.VerifyTimestamp called with " +
 		"explicit now at now = sender-skew-1ns/-0/+1, sender+lifetime+skew-1/0/+1 and random offsets; (5) the EPIC MAC " +
-		"input block for all 16 source address type codes. non-trivial = at the penultimate/last hop the embedded path " +
+		"input block for all 16 source address type codes; (6) sequences through ONE reused packet processor (as " +
+		"runProcessor does): SCION segment change then EPIC within a segment for all 25 link-type pairs and both " +
+		"directions, EPIC segment change then SCION / EPIC within a segment, no change then change, with one-hop " +
+		"packets, refused packets, garbage and peering hops in between - every packet compared with the stateless " +
+		"per-packet model. non-trivial = at the penultimate/last hop the embedded path " +
 		"was accepted (EPIC checks reached), elsewhere the packet was forwarded; every timestamp / input-block case"
 	rng := vgen.NewRand(run.Seed)
 	nowSec = time.Now().Unix()
@@ -472,6 +579,13 @@ func main() {
 			pl.offsetNs = nsPerSec + int64(r.Range(5, 3600))*nsPerSec
 		}
 		emitEpic("tampered", rc, sc, pl)
+	}
+	seqCfg := addConfig(rtgen.TableConfig(rng.Fork(77)))
+	sequences(rng.Fork(78), seqCfg)
+	if run.Tier == "thorough" {
+		for i := 0; i < 10; i++ {
+			sequences(rng.Fork(uint64(780+i)), seqCfg)
+		}
 	}
 	tsCases(rng.Fork(5), run.Count(180, 5000))
 	macInCases(rng.Fork(6), run.Count(48, 800))
